@@ -2,6 +2,4 @@ package sim
 
 // scenario parts of the other families (defined in their own files as they are built)
 type AdmScen struct{}
-type TimerScen struct{}
 type WTScen struct{}
-type ContScen struct{}
